@@ -102,6 +102,19 @@ claim("C15",
       "Exactly-once/visit order for all shapes would need the stack machines executed or modelled and is not decided.",
       NOTE, "DESIGN.md section 2, C15")
 
+claim("C16",
+      "cache-first getter detection with a refresh-before-read check in the leaf branch, guard dominance, taint-based no-write-to-arguments, paired-increment check",
+      "Static: leaf state sets are refreshed from this call's map before the attribute-first getter serves them; the namespace test dominates all computation; the matrix, "
+      "weights and state-set map are never written; every increment of the total is paired with the same per-character increment. Minimality and root/child-order "
+      "independence are value-level and not decided.",
+      NOTE, "DESIGN.md section 2, C16")
+claim("C18",
+      "RNG-threading analysis: idiom check for GLOBAL_RNG, module-level random calls, parameter forwarding at every resolved call site of an rng-taking callee, set-iteration scan",
+      "Static: GLOBAL_RNG is referenced only as the default of a function's own rng; no simulator calls the module-level generator; at each of the call sites whose callee "
+      "takes an rng the caller passes its own rng; no simulator iterates over or samples from an id-ordered set. Tip counts, bifurcation, ultrametricity and the coalescent "
+      "containment constraint are not decided.",
+      NOTE, "DESIGN.md section 2, C18")
+
 _PENDING = "rule module not yet built in this session (claimed in DESIGN.md; will move to checks when the rule lands)"
 for _p in ["C01","C02","C03","C04","C05","C06","C07","C08","C09","C10","C11","C12","C13","C15","C16","C18","C20"]:
     if _p not in CLAIMED:
